@@ -15,7 +15,9 @@ var props = map[string]struct {
 	"dbg-lo": {"other", h.DebugLO},
 	"C01": {"exploration", h.C01},
 	"C02": {"exploration", h.C02},
+	"C03": {"exploration", h.C03},
 	"C04": {"exploration", h.C04},
+	"C07": {"exploration", h.C07},
 	"C05": {"exploration", h.C05},
 	"C06": {"exploration", h.C06},
 	"C30": {"exploration", h.C30},
